@@ -22,8 +22,14 @@ func maxOf(w int) uint64 {
 	return 1<<(8*uint(w)) - 1
 }
 
+var pow2Edges = []uint64{1 << 7, 1 << 8, 1 << 15, 1 << 16, 1 << 24, 1 << 31, 1 << 32, 1 << 40, 1 << 48, 1 << 63}
+
 func (g *Gen) scalar(w int) uint64 {
 	m := maxOf(w)
+	if g.r.Intn(8) == 0 { // values around the powers of two where narrower arithmetic wraps
+		e := pow2Edges[g.r.Intn(len(pow2Edges))]
+		return (e + uint64(g.r.Intn(3)) - 1) & m
+	}
 	switch g.r.Intn(10) {
 	case 0:
 		return 0
@@ -154,9 +160,14 @@ func (g *Gen) anyFixed(n int, pad byte) []byte {
 	return b
 }
 
+var lenEdges = []int{15, 16, 17, 31, 32, 33, 63, 64, 65, 127, 128, 129}
+
 func (g *Gen) listLen() int {
 	if len(g.bigLists) > 0 && g.r.Intn(40) == 0 {
 		return g.bigLists[g.r.Intn(len(g.bigLists))]
+	}
+	if g.maxList >= 6 && g.r.Intn(25) == 0 {
+		return lenEdges[g.r.Intn(len(lenEdges))]
 	}
 	switch g.r.Intn(6) {
 	case 0:
@@ -182,7 +193,7 @@ func (g *Gen) vstr(pw int) []byte {
 	case 3:
 		l = 300 + g.r.Intn(200)
 	case 4:
-		l = []int{61, 62, 63, 64, 65, 66, 126, 127, 128, 129}[g.r.Intn(10)] // around small scratch-buffer sizes
+		l = []int{15, 16, 17, 31, 32, 33, 61, 62, 63, 64, 65, 66, 126, 127, 128, 129, 511, 512, 513, 1023, 1024, 1025, 4095, 4096, 4097}[g.r.Intn(25)] // around scratch-buffer sizes
 	default:
 		l = g.r.Intn(40)
 	}
